@@ -7,8 +7,8 @@ from moments_rs import n_cases
 import vl
 from c01 import A_REAL, A_INT, A_LIB, EXTRACTION, variance_accessors
 
-A_REALIZABLE = ("A-REALIZABLE: for central sums of a real multiset M2 >= 0, M2 = 0 => M3 = M4 = 0 and M2 > 0 => M4 > 0 "
-                "(facts about sums of even powers, not inductive in the summary; DESIGN.md 4.2)")
+A_REALIZABLE = ("realizable(P): for central sums of a real multiset M2 >= 0, M2 = 0 => M3 = M4 = 0 and M2 > 0 => M4 > 0 - used as hypotheses of the accessor "
+                "contracts and DISCHARGED as Verus lemmas over real sequences (lemma_realizable, lemma_bridge: central sums = the power-sum terms M_p(P) for p <= 4)")
 
 
 def run(tier, seed):
@@ -41,7 +41,7 @@ def run(tier, seed):
             for acc in ("kurtosis", "estimate"):
                 mr.check_accessor(pr, cr, ty, f, acc, n_cases(1, kurt_spec, extra_hyps=rz), mks)
     obs = pr.obs
-    obs += vl.run_lemmas("C03", ["lemma_fold", "swap"])
+    obs += vl.run_lemmas("C03", ["lemma_fold", "swap", "realizable", "bridge", "real_sq"])
     meta = {
         "level": "proof",
         "checker_cmd": "./check C03 (rsx -> RS executor -> sympy normal form / z3 QF_NRA; verus history.rs)",
